@@ -1034,8 +1034,9 @@ def write_if_changed(path, text):
     old = open(path).read() if os.path.exists(path) else None
     if old != text:
         os.makedirs(os.path.dirname(path), exist_ok=True)
-        with open(path, "w") as f:
+        with open(path + ".tmp", "w") as f:
             f.write(text)
+        os.replace(path + ".tmp", path)      # atomic: a concurrent coqc never sees a half-written file
         return True
     return False
 
